@@ -333,6 +333,7 @@ def run(chk):
     _procclose_rule(chk, prog)
     _sigpipe_rule(chk, prog)
     _register_rule(chk, prog)
+    _sideowner_rule(chk, prog)
 
 
 def _solewaiter_rule(chk, prog):
@@ -527,3 +528,63 @@ def _register_rule(chk, prog):
                                   "thread's event loop: no readiness event will ever arrive for it, so a read or write that cannot complete "
                                   "at once waits for ever" % fn.name)
     chk.floor(rule, 2, n)
+
+
+# functions that clear a stream side without looking at it first, and why that is right there
+SIDEOWNER_UNGUARDED = {
+    "janet_stream_ext": "the stream was just allocated: nobody is registered",
+    "janet_stream_unmarshal": "a fresh copy in another thread: registrations are not carried over",
+    "ev_callback_read": "an ev_callback runs only for the fiber that is registered on that side, and the read callback names its own side",
+}
+
+
+def _sideowner_rule(chk, prog):
+    """A stream has one reader slot and one writer slot.  A cancelled waiter that has not run yet can be replaced in its
+    slot by a new fiber, so a fiber that detaches may no longer own either slot.  Clearing a slot is therefore tied to
+    a test of THAT slot (it still holds this fiber / it holds a fiber that was just notified): clearing `the other
+    one` wipes the registration of whoever took the place, and that fiber waits for ever."""
+    rule = "C16-SIDEOWNER"
+    chk.rule(rule, "a stream's read_fiber / write_fiber slot is cleared only on a path that examined that same slot")
+    n = 0
+    for fn in prog.tus["ev.c"].funcs.values():
+        stores = [x for x in fn.nodes if x.k == "asg" and x.op == "=" and x.kids[0].k == "mem" and x.kids[0].field in ("read_fiber", "write_fiber")
+                  and x.kids[0].rec == "JanetStream" and (strip_casts(x.kids[1]).v == 0 or strip_casts(x.kids[1]).text() in ("NULL", "((void *)0)"))]
+        if not stores:
+            continue
+        chk.analysed(fn)
+        # locals loaded from a slot
+        loaded = {}
+        for y in fn.nodes:
+            if y.k == "vardecl" and y.kids:
+                r = strip_casts(y.kids[0])
+                if r.k == "mem" and r.field in ("read_fiber", "write_fiber") and r.rec == "JanetStream":
+                    loaded[y.name] = r.field
+        IN, T = flow.condition_facts(fn)
+        res = {}
+        for x, S in flow.states_at(fn, IN, T):
+            if x in stores:
+                side = x.kids[0].field
+                def examined(ps):
+                    for (op, l, r, toks, ln, rn) in ps:
+                        for e in (ln, rn):
+                            if e is None:
+                                continue
+                            for y in e.walk():
+                                if y.k == "mem" and y.field == side and y.rec == "JanetStream":
+                                    return True
+                                if y.k == "ref" and loaded.get(y.name) == side:
+                                    return True
+                    return False
+                res[id(x)] = bool(S) and all(examined(ps) for ps in S)
+        for x in stores:
+            n += 1
+            chk.instance(rule)
+            if res.get(id(x)):
+                chk.ok(rule, "%s: `%s` after a test of that slot" % (fn.name, x.text()[:50]))
+            elif fn.name in SIDEOWNER_UNGUARDED:
+                chk.exception(rule, "%s:%s" % (fn.name, x.kids[0].field), SIDEOWNER_UNGUARDED[fn.name])
+            else:
+                chk.violation(rule, "ev.c", fn.name, "blind-clear:" + x.kids[0].field, x.loc,
+                              "`%s` clears the slot on a path that never looked at it: when the detaching fiber was cancelled and another "
+                              "fiber has since registered there, the newcomer's registration is wiped and no event is ever delivered to it" % x.text()[:60])
+    chk.floor(rule, 8, n)
